@@ -87,6 +87,121 @@ type ProviderCase struct {
 	AuthzVia string    `json:"authz_via,omitempty"` // authorization requests of the grant / PKCE probes: "" = GET with query | post = POST with form body
 	MachAuth string    `json:"mach_auth,omitempty"` // how the machine client authenticates: "" = client_secret_basic | client_secret_post (only generated when enabled)
 	RO       []ROShape `json:"ro,omitempty"`        // request-object request shapes (none: the one classic shape, everything repeated in both places)
+
+	// the code_verifier of the PKCE probes, drawn from the whole space RFC 7636 section 4.1 allows (43..128 characters
+	// of A-Z a-z 0-9 - . _ ~); "" = the one classic verifier. WrongVerifier: how the verifier of the negative probe is
+	// derived from it ("" = one character appended | flip-first | flip-last | drop-last | dot-tilde-swapped).
+	Verifier      string `json:"verifier,omitempty"`
+	WrongVerifier string `json:"wrong_verifier,omitempty"`
+}
+
+const (
+	classicVerifier = "verifier-0123456789-abcdefghijklmnopqrstuvwxyz_ABCDEFGH"
+	vfBase64URL     = "ABCDEFGHIJKLMNOPQRSTUVWXYZabcdefghijklmnopqrstuvwxyz0123456789-_"
+	vfUnreserved    = vfBase64URL + ".~"
+	vfDotTilde      = "....~~~~..~~.~-_aZ5" // mostly the two unreserved characters outside the base64url alphabet
+)
+
+var wrongVerifierKinds = []string{"", "flip-first", "flip-last", "drop-last", "dot-tilde-swapped"}
+
+// genVerifier draws a legal code_verifier (RFC 7636, 4.1: 43*128unreserved) with the boundary lengths and the
+// characters outside the base64url alphabet well represented; "" = the classic verifier.
+func genVerifier(t *rapid.T) string {
+	class := rapid.SampledFrom([]string{"classic", "base64url", "unreserved", "unreserved", "dot-tilde", "one-char"}).Draw(t, "verifier_class")
+	if class == "classic" {
+		return ""
+	}
+	n := rapid.SampledFrom([]int{43, 43, 128, 128, 44, 127, 0, 0}).Draw(t, "verifier_len")
+	if n == 0 {
+		n = rapid.IntRange(43, 128).Draw(t, "verifier_len_any")
+	}
+	alphabet := vfUnreserved
+	switch class {
+	case "base64url":
+		alphabet = vfBase64URL
+	case "dot-tilde":
+		alphabet = vfDotTilde
+	case "one-char":
+		return strings.Repeat(rapid.SampledFrom([]string{".", "~", "-", "_", "a", "Z", "0"}).Draw(t, "verifier_char"), n)
+	}
+	return string(rapid.SliceOfN(rapid.SampledFrom([]byte(alphabet)), n, n).Draw(t, "verifier_chars"))
+}
+
+// verifier: the right code_verifier of the PKCE probes of the case.
+func (pc *ProviderCase) verifier() string {
+	if pc.Verifier == "" {
+		return classicVerifier
+	}
+	return pc.Verifier
+}
+
+// wrongVerifier derives a verifier that differs from v (so neither its S256 challenge nor itself equals v's).
+func wrongVerifier(v, kind string) string {
+	other := func(c byte) byte {
+		if c == 'A' {
+			return 'B'
+		}
+		return 'A'
+	}
+	bs := []byte(v)
+	switch kind {
+	case "flip-first":
+		bs[0] = other(bs[0])
+	case "flip-last":
+		bs[len(bs)-1] = other(bs[len(bs)-1])
+	case "drop-last":
+		bs = bs[:len(bs)-1]
+	case "dot-tilde-swapped":
+		changed := false
+		for i, c := range bs {
+			switch c {
+			case '.':
+				bs[i], changed = '~', true
+			case '~':
+				bs[i], changed = '.', true
+			}
+		}
+		if !changed {
+			bs[len(bs)/2] = other(bs[len(bs)/2])
+		}
+	default:
+		bs = append(bs, 'x')
+	}
+	return string(bs)
+}
+
+// verifierClass: length class and character class of a verifier, computed from the string itself (labels, key).
+func verifierClass(v string) (length, chars string) {
+	switch {
+	case len(v) == 43:
+		length = "len-min-43"
+	case len(v) == 128:
+		length = "len-max-128"
+	case len(v) > 43 && len(v) < 128:
+		length = "len-between"
+	default:
+		length = "len-illegal"
+	}
+	outside, illegal := 0, 0
+	for _, c := range v {
+		switch {
+		case c == '.' || c == '~':
+			outside++
+		case !strings.ContainsRune(vfBase64URL, c):
+			illegal++
+		}
+	}
+	switch {
+	case illegal > 0:
+		chars = "chars-illegal"
+	case outside == 0:
+		chars = "base64url-only"
+	case 2*outside > len(v):
+		chars = "mostly-dot-tilde"
+	default:
+		chars = "some-dot-tilde"
+	}
+	return
 }
 
 // ROShape is one shape of an authorization request carrying a signed request object (OIDC Core 6.1): every parameter
@@ -319,6 +434,8 @@ func genProvider(t *rapid.T) *ProviderCase {
 	pc.JWTAT = rapid.Bool().Draw(t, "jwt_at")
 	pc.PKCEClient = rapid.SampledFrom([]string{"pub", "web"}).Draw(t, "pkce_client")
 	pc.NearMiss = rapid.SampledFrom(nearKinds).Draw(t, "near_miss")
+	pc.Verifier = genVerifier(t)
+	pc.WrongVerifier = rapid.SampledFrom(wrongVerifierKinds).Draw(t, "wrong_verifier")
 	pc.AuthzVia = rapid.SampledFrom([]string{"", "", "post"}).Draw(t, "authz_via")
 	if pc.Post {
 		pc.MachAuth = rapid.SampledFrom([]string{"", "client_secret_post"}).Draw(t, "mach_auth")
@@ -646,7 +763,15 @@ func (pc *ProviderCase) key() string {
 	return "P|" + pc.Router + "|" + b(pc.S256) + b(pc.Post) + b(pc.PKJWT) + b(pc.Refresh) + b(pc.ReqObj) + b(pc.Insecure) + "|" +
 		b(pc.Caps.CC) + b(pc.Caps.TE) + b(pc.Caps.Device) + b(pc.Caps.Extras) + "|" + pc.IssuerMode + "|" + pc.Issuer + "|" + pc.Host + "|" +
 		strings.Join(pc.Forwarded, ",") + "|" + eps + "|" + pc.SignAlg + "|" + pc.WebAuth + "|" + pc.PKCEClient + "|" + strings.Join(pc.viewRelations(), ",") +
-		"|" + pc.AuthzVia + "|" + pc.MachAuth + "|" + strings.Join(pc.roKeys(), ",")
+		"|" + pc.AuthzVia + "|" + pc.MachAuth + "|" + strings.Join(pc.roKeys(), ",") + pc.verifierKey()
+}
+
+func (pc *ProviderCase) verifierKey() string {
+	if pc.Verifier == "" && pc.WrongVerifier == "" {
+		return ""
+	}
+	l, c := verifierClass(pc.verifier())
+	return "|" + l + "," + c + "," + pc.WrongVerifier
 }
 
 func (pc *ProviderCase) roKeys() []string {
@@ -1076,7 +1201,13 @@ func judgeView(pc *ProviderCase, res *vkit.Result, sut *vkit.SUT, st *vkit.Store
 		if pc.PKCEClient == "web" {
 			cl, redirect, cred = web, redirectWeb, webCred
 		}
-		const verifier = "verifier-0123456789-abcdefghijklmnopqrstuvwxyz_ABCDEFGH"
+		verifier := pc.verifier()
+		wrong := wrongVerifier(verifier, pc.WrongVerifier)
+		vfLen, vfChars := verifierClass(verifier)
+		if vfLen == "len-illegal" || vfChars == "chars-illegal" || wrong == verifier {
+			res.Label("pkce:verifier-not-legal") // hand-written case only; the positive probe needs a legal verifier
+			methods = nil
+		}
 		for _, m := range methods {
 			var challenge string
 			switch m {
@@ -1092,20 +1223,23 @@ func judgeView(pc *ProviderCase, res *vkit.Result, sut *vkit.SUT, st *vkit.Store
 			f1 := codeFlow(cl, redirect, extra)
 			r1 := a.token(vkit.CodeExchangeForm(f1.params.Get("code"), redirect, verifier), cred())
 			f2 := codeFlow(cl, redirect, extra)
-			r2 := a.token(vkit.CodeExchangeForm(f2.params.Get("code"), redirect, verifier+"x"), cred())
+			r2 := a.token(vkit.CodeExchangeForm(f2.params.Get("code"), redirect, wrong), cred())
 			for _, r := range []*vkit.Resp{r1, r2} {
 				if r.Panic != nil {
 					res.Fail("C19:panic@"+r.PanicFrame(), "token endpoint panicked in the PKCE probe: %v", r.Panic)
 				}
 			}
 			if r1.Panic == nil && outcome(r1) != "ok" {
-				res.Fail("C19:pkce-advertised-not-honoured:"+m+":right-verifier-refused", "code_challenge_methods_supported lists %s but a %s flow of client %s with the right verifier fails: %s / %s", m, m, cl.ID, f1.describe(), r1.Describe())
+				res.Fail("C19:pkce-advertised-not-honoured:"+m+":right-verifier-refused", "code_challenge_methods_supported lists %s but a %s flow of client %s with the right verifier %q (RFC 7636 4.1: %s, %s) fails: %s / %s", m, m, cl.ID, verifier, vfLen, vfChars, f1.describe(), r1.Describe())
 			}
 			if r2.Panic == nil && (r2.Success() || len(r2.HasTokenMaterial()) > 0) {
-				res.Fail("C19:pkce-advertised-not-honoured:"+m+":wrong-verifier-accepted", "code_challenge_methods_supported lists %s but a %s flow of client %s with a wrong verifier is answered %s", m, m, cl.ID, r2.Describe())
+				res.Fail("C19:pkce-advertised-not-honoured:"+m+":wrong-verifier-accepted", "code_challenge_methods_supported lists %s but a %s flow of client %s with a wrong verifier (%q for %q) is answered %s", m, m, cl.ID, wrong, verifier, r2.Describe())
 			}
 			keep("pkce", r1)
 			res.Label("pkce:" + m + ":probed:" + pc.PKCEClient)
+			res.Label("pkce:verifier:" + vfLen)
+			res.Label("pkce:verifier:" + vfChars)
+			res.Label("pkce:wrong-verifier:" + map[bool]string{true: "appended"}[pc.WrongVerifier == ""] + pc.WrongVerifier)
 		}
 	} else if len(methods) > 0 {
 		res.Label("pkce:not-probeable")
@@ -1491,7 +1625,7 @@ func runDiscover(dc *DiscoverCase, res *vkit.Result) {
 
 // ---- properties ------------------------------------------------------------------------------
 
-const rule = "provider cases = router (op.Provider / LegacyServer) x 6 config flags x storage capabilities (cc, te, device, extras) x issuer strategy (static https/http issuers with ports, paths, trailing slash; from Host; from Forwarded) x Host header x Forwarded header(s) x 1-3 further (Host, Forwarded) combinations sent to the same provider instance (same Host / other Forwarded, other Host / same Forwarded, both different, finally the first again; each document must name the issuer of its own request, its endpoints must be routed, fresh tokens must carry it; identical requests must get identical statements) x per-endpoint shape (default / custom path / absolute URL below the issuer / absolute URL elsewhere / nil on LegacyServer) x signing key x client auth method; each is judged from its own discovery document: every advertised endpoint below the issuer is requested (404/405 = not routed), all flows then use the advertised addresses, each of the 6 token-endpoint grants is probed with a registered, authenticated, complete request (advertised <=> not unsupported_grant_type), iss of every JWT issued == document issuer, each advertised PKCE method accepts the right and refuses a wrong verifier, an advertised request-object support is tried with 1-3 generated request shapes (OIDC Core 6.1: each of redirect_uri, state, nonce, response_mode, prompt, max_age, login_hint, code_challenge as plain parameter / inside the object only / in both with different values / absent, scope and response_type plain or repeated (scope widened) in the object; aud as array / string / array with a further entry; signed by client web or mach; sent by GET query or POST form): the request must be accepted, the stored authorization request and the redirect must carry the object's value wherever the object has one and the plain value otherwise, a code challenge conveyed by the object must bind the code (right verifier accepted, superseded plain one refused); the other probes vary their shape too: authorization requests of the grant / PKCE probes by GET or POST, the machine client by client_secret_basic or (when enabled) client_secret_post, authorization / userinfo / end_session endpoints requested with GET and POST; client.Discover accepts the document for its issuer and refuses a near miss; " +
+const rule = "provider cases = router (op.Provider / LegacyServer) x 6 config flags x storage capabilities (cc, te, device, extras) x issuer strategy (static https/http issuers with ports, paths, trailing slash; from Host; from Forwarded) x Host header x Forwarded header(s) x 1-3 further (Host, Forwarded) combinations sent to the same provider instance (same Host / other Forwarded, other Host / same Forwarded, both different, finally the first again; each document must name the issuer of its own request, its endpoints must be routed, fresh tokens must carry it; identical requests must get identical statements) x per-endpoint shape (default / custom path / absolute URL below the issuer / absolute URL elsewhere / nil on LegacyServer) x signing key x client auth method; each is judged from its own discovery document: every advertised endpoint below the issuer is requested (404/405 = not routed), all flows then use the advertised addresses, each of the 6 token-endpoint grants is probed with a registered, authenticated, complete request (advertised <=> not unsupported_grant_type), iss of every JWT issued == document issuer, each advertised PKCE method accepts the right and refuses a wrong verifier, the right verifier drawn from the whole legal space of RFC 7636 4.1 (length 43 / 44 / 127 / 128 / any between, characters from the base64url alphabet only / all six classes of unreserved characters / mostly '.' and '~' / one character repeated; challenge = BASE64URL(SHA256(verifier)) computed by the harness), the wrong one derived from it (character appended / first or last changed / last dropped / '.' and '~' swapped), an advertised request-object support is tried with 1-3 generated request shapes (OIDC Core 6.1: each of redirect_uri, state, nonce, response_mode, prompt, max_age, login_hint, code_challenge as plain parameter / inside the object only / in both with different values / absent, scope and response_type plain or repeated (scope widened) in the object; aud as array / string / array with a further entry; signed by client web or mach; sent by GET query or POST form): the request must be accepted, the stored authorization request and the redirect must carry the object's value wherever the object has one and the plain value otherwise, a code challenge conveyed by the object must bind the code (right verifier accepted, superseded plain one refused); the other probes vary their shape too: authorization requests of the grant / PKCE probes by GET or POST, the machine client by client_secret_basic or (when enabled) client_secret_post, authorization / userinfo / end_session endpoints requested with GET and POST; client.Discover accepts the document for its issuer and refuses a near miss; " +
 	"pair cases (1 in 8) = TWO providers A and B in one process (B generated independently, or A with 1-3 of S256 / Post / PKJWT / Refresh / ReqObj / cc / te / device / router / signing key / issuer toggled; no endpoint options on the op.Provider router) and 1-3 steps with harness-owned interleaving: " +
 	"gate step = provider X's discovery request runs on a goroutine and is held INSIDE X's storage (SignatureAlgorithms, the storage call of the discovery builders; KeySet as a method discovery does not consult) on a gate while 1-3 generated actions happen (the other provider answers discovery / is judged completely / has its exported helper lists or op.CreateDiscoveryConfig computed; X itself answers a second discovery request - on its own goroutine, it may have to wait for the held one - or has its helpers called), " +
 	"then X is released and the document that was in flight is judged by the full oracle above (every wait is on a channel, no wall-clock verdict; identical requests to X must get identical bodies); held step = the lists returned for X by op.GrantTypes, Scopes, ResponseTypes, SubjectTypes, SigAlgorithms, RequestObjectSigAlgorithms, AuthMethods*Endpoint, *SigAlgorithms, SupportedClaims, CodeChallengeMethods, SupportedUILocales and the struct op.CreateDiscoveryConfig returned for X are held while the same actions happen, " +
@@ -1566,6 +1700,17 @@ func latticeCase(cell int, variant string) Case {
 		}
 	}
 	// request shapes, spread over the cells by moduli coprime to the flag bits
+	switch cell % 5 {
+	case 1:
+		pc.Verifier = strings.Repeat(vfUnreserved, 2)[cell%61:][:43]
+	case 2:
+		pc.Verifier = strings.Repeat(vfDotTilde, 8)[cell%17:][:128]
+	case 3:
+		pc.Verifier = strings.Repeat(vfBase64URL, 3)[cell%59:][:43+cell%86]
+	case 4:
+		pc.Verifier = strings.Repeat([]string{".", "~"}[cell%7%2], []int{43, 128}[cell%3%2])
+	}
+	pc.WrongVerifier = wrongVerifierKinds[cell%11%len(wrongVerifierKinds)]
 	if cell%3 == 1 {
 		pc.AuthzVia = "post"
 	}
